@@ -100,6 +100,7 @@ def run_interop_impl(case):
     """returns one line per callback: 'ret | conseq ... ; outcome ...'"""
     _setup(case)
     out = []
+    kept = []          # (line index, the returned list object, what it held when it was returned)
     import logging
     logging.disable(logging.CRITICAL)
     with warnings.catch_warnings():
@@ -133,7 +134,15 @@ def run_interop_impl(case):
                     out.append("ret-exc %s" % type(e).__name__)
                     continue
                 outs = [l.split()[-1] for l in S.CTX.trace[mark:] if l.startswith("act ")] + ["ok"] * len(tracks)
+                if cons is not None:
+                    kept.append((len(out), cons, [_conseq(c) for c in cons]))
                 out.append("ret" + "".join(" | " + _conseq(c) for c in (cons or [])) + " ;" + "".join(" " + o for o in outs))
+            # the caller keeps what every callback returned (a trace recorder does): a returned list is that callback's
+            # requests for good, whatever the protocol does later
+            for idx, cons, then in kept:
+                now = [_conseq(c) for c in cons]
+                if now != then:
+                    out[idx] += " ; LATER " + " | ".join(now)
         finally:
             S.CTX.after_fire = None
             logging.disable(logging.NOTSET)
@@ -231,6 +240,9 @@ def mon_C14(case, lines):
             v.append("C14: callback %d (%s) raised %s under the interop wrapper site=InteropProvider.%s"
                      % (i, cb["kind"], line.split()[1], "cancel_timer" if "NotImplementedError" in line else "?"))
             continue
+        if " ; LATER " in line:
+            line, _, later = line.partition(" ; LATER ")
+            v.append("C14: the list returned by callback %d (%s) changed after it was returned: it now holds [%s]" % (i, cb["kind"], later))
         body, _, outs = line.partition(";")
         cons = [x.strip() for x in body.split("|")][1:]
         fwd = [x for x in cons if not x.startswith("track")]
